@@ -353,7 +353,7 @@ pub fn run(ctx: &mut Ctx) {
             let mut crng = rng.fork(my);
             let dir = ctx.work.join(format!("c12-{}", my));
             std::fs::create_dir_all(&dir).unwrap();
-            match util::guarded(|| custom_manifest(&dir, dirpos, &mut crng)) {
+            match util::guarded(|| custom_manifest(&dir, dirpos, &mut crng, 2, 0)) {
                 Ok(Ok(path)) => {
                     one_history(ctx, my, &mut crng, &path, &format!("custom-manifest-dir-at-{}", dirpos), None);
                     if dirpos > 0 && round % 2 == 0 {
@@ -376,15 +376,55 @@ pub fn run(ctx: &mut Ctx) {
             }
             let _ = std::fs::remove_dir_all(&dir);
         }
+        // big manifests: the pack-info table straddles offset 65536 of the manifest (large free data of
+        // one pack) or the checked data exceeds 8 KiB (many packs); standalone and inside a container file
+        let mut bigs: Vec<(u16, usize)> = vec![];
+        let spread: &[usize] = if ctx.quick() { &[64_620, 64_880, 65_130] } else { &[64_500, 64_600, 64_700, 64_800, 64_900, 65_000, 65_100, 65_200, 65_300] };
+        for f in spread {
+            bigs.push((2, f + 7 * round));
+        }
+        bigs.push((if ctx.quick() { 31 } else { 29 + 4 * round as u16 }, 0));
+        for (bi, (ncontent, free)) in bigs.into_iter().enumerate() {
+            let my = case;
+            case += 1;
+            let my2 = case;
+            case += 1;
+            if !ctx.wants(my) && !ctx.wants(my2) {
+                continue;
+            }
+            let mut crng = rng.fork(my);
+            let dir = ctx.work.join(format!("c12-{}", my));
+            std::fs::create_dir_all(&dir).unwrap();
+            match util::guarded(|| custom_manifest(&dir, bi % 3, &mut crng, ncontent, free)) {
+                Ok(Ok(path)) => {
+                    ctx.count(&format!("big_manifest_kb:{}", std::fs::metadata(&path).map(|m| m.len() / 1024).unwrap_or(0)));
+                    if ctx.wants(my) {
+                        one_history(ctx, my, &mut crng, &path, &format!("big-manifest-{}packs-free{}", ncontent + 1, free), None);
+                    }
+                    if ctx.wants(my2) {
+                        let mut files: Vec<std::path::PathBuf> = std::fs::read_dir(&dir).unwrap().filter_map(|e| e.ok().map(|e| e.path())).filter(|p| p.is_file()).collect();
+                        files.sort();
+                        let out = dir.join("concat.jbk");
+                        let outp = camino::Utf8PathBuf::from_path_buf(out.clone()).unwrap();
+                        match util::guarded(|| jbk::tools::concat(&files, &outp)) {
+                            Ok(Ok(())) => one_history(ctx, my2, &mut crng, &out, &format!("concat-of-big-manifest-{}packs-free{}", ncontent + 1, free), None),
+                            other => ctx.fail(my2, "concat", &format!("tools::concat failed: {:?}", other.map(|r| r.map_err(|e| util::err_kind(&e))))),
+                        }
+                    }
+                }
+                other => ctx.fail(my, "create", &format!("creation of a big custom manifest failed: {:?}", other)),
+            }
+            let _ = std::fs::remove_dir_all(&dir);
+        }
     }
 }
 
 /// two content packs, an (empty) directory pack and a manifest listing them with the directory pack
 /// at position `dirpos`; returns the path of the manifest file
-fn custom_manifest(dir: &Path, dirpos: usize, rng: &mut Rng) -> Result<std::path::PathBuf, String> {
+fn custom_manifest(dir: &Path, dirpos: usize, rng: &mut Rng, ncontent: u16, free: usize) -> Result<std::path::PathBuf, String> {
     let open = |p: &Path| std::fs::OpenOptions::new().read(true).write(true).create(true).truncate(true).open(p).map_err(|e| format!("io:{e}"));
     let mut infos = vec![];
-    for k in 0..2u16 {
+    for k in 0..ncontent {
         let p = dir.join(format!("m.c{}.jbkc", k + 1));
         let p8 = camino::Utf8PathBuf::from_path_buf(p).unwrap();
         let mut cp = jbk::creator::ContentPackCreator::new(&p8, jbk::PackId::from(k + 1), util::VENDOR, Default::default(), jbk::creator::Compression::None).map_err(|e| format!("{e}"))?;
@@ -393,7 +433,11 @@ fn custom_manifest(dir: &Path, dirpos: usize, rng: &mut Rng) -> Result<std::path
             let len = rng.below(200) as usize;
             cp.add_content(Box::new(std::io::Cursor::new(rng.bytes(len))), Default::default()).map_err(|e| format!("{e}"))?;
         }
-        let (_f, info) = cp.finalize().map_err(|e| format!("{e}"))?;
+        let (_f, mut info) = cp.finalize().map_err(|e| format!("{e}"))?;
+        if k == 0 && free > 0 {
+            // free data of a pack is stored in the manifest's value store, in front of the pack infos
+            info.free_data = (0..free).map(|i| (i % 251) as u8).collect();
+        }
         infos.push((info, format!("m.c{}.jbkc", k + 1)));
     }
     let dp = jbk::creator::DirectoryPackCreator::new(jbk::PackId::from(0), util::VENDOR, Default::default());
